@@ -664,7 +664,10 @@ def accel_configs(tier):
         Kr = FIRST_ACCELERATED.get(accel, 4) + 1
         for omega in (0.5, 1.5):
             out.append(("accel", dict(system="n_self1", mda="jacobi", K=Kr, accel=accel, omega=omega)))
-            if not quick:
+            # (Gauss-Seidel with relaxation != 1 and a delta-squared type formula: the exact-arithmetic 0/0 of the open finding
+            # C06-acceleration-zero-denominator-with-relaxation is rounding noise / rounding noise in float64 there, so its counterexamples do
+            # not replay as NaN: those configurations are left out rather than reported unsoundly)
+            if not quick and accel not in ("Aitken", "Secant", "AlternateDeltaSquared"):
                 out.append(("accel", dict(system="n_self1", mda="gs", K=Kr, accel=accel, omega=omega)))
         # two-dimensional couplings
         K2 = 4 if accel.startswith("Alternate") else 3
